@@ -58,11 +58,19 @@ def _free_path(rng, wt, names, st=None):
     return None
 
 
-def extra_edits(rng, wt, names, log):
+EXTRA_KINDS = ["rename+edit", "rename+edit", "binary", "retarget", "emptydir", "dirrename+edit", "dirrename+edit", "truncate",
+               "exec+edit", "newbinary", "dirrename+dropchild", "dirrename+dropchild"]
+# one revision vacates a path and something else occupies it (pure renames of untouched directories / files / symlinks,
+# new entries), two entries trade places, an entry changes kind while its git blob stays the same bytes
+# (symlink <-> file holding the link target: what a checkout without symlink support commits)
+REUSE_KINDS = ["takeover", "takeover", "takeover", "swap", "kindflip", "kindflip"]
+
+
+def extra_edits(rng, wt, names, log, kinds=None):
     """0..2 composite edits the properties name explicitly; each is legal on the current tree."""
+    kinds = kinds or EXTRA_KINDS
     for _ in range(rng.choice([0, 1, 1, 2])):
-        k = rng.choice(["rename+edit", "rename+edit", "binary", "retarget", "emptydir", "dirrename+edit", "dirrename+edit", "truncate",
-                        "exec+edit", "newbinary", "dirrename+dropchild", "dirrename+dropchild"])
+        k = rng.choice(kinds)
         try:
             _extra(rng, wt, names, k, log)
         except Exception as e:  # refused by breezy (e.g. path taken): not judged here
@@ -167,6 +175,12 @@ def _extra(rng, wt, names, k, log):
         else:
             wt.remove([moved], keep_files=False, force=True)
         log.append({"extra": k, "src": d, "dst": dst, "child": kid, "to": out})
+    elif k == "takeover":
+        _takeover(rng, wt, names, log)
+    elif k == "swap":
+        _swap(rng, wt, names, log)
+    elif k == "kindflip":
+        _kindflip(rng, wt, names, log)
     elif k == "truncate" and files:
         p = rng.choice(files)
         gen._write(os.path.join(base, p), b"")
@@ -178,6 +192,173 @@ def _extra(rng, wt, names, k, log):
         gen._write(ap, gen.edit_content(rng, wt.get_file_text(p)))
         os.chmod(ap, 0o644 if ex else 0o755)
         log.append({"extra": k, "path": p})
+
+
+def _present(wt):
+    """{path: (kind, content, exec, id)} of the versioned entries that exist on disk with their versioned kind."""
+    st = snap_tree(wt)
+    out = {}
+    for p, v in st.items():
+        ap = os.path.join(wt.basedir, p)
+        if v[0] is None or not os.path.lexists(ap):
+            continue
+        disk = "symlink" if os.path.islink(ap) else "directory" if os.path.isdir(ap) else "file"
+        if disk == v[0] and all(q in out for q in _parents(p)):
+            out[p] = v
+    return out
+
+
+def _parents(p):
+    while "/" in p:
+        p = p.rpartition("/")[0]
+        yield p
+
+
+def _height(st, p):
+    return max([q.count("/") - p.count("/") for q in st if q.startswith(p + "/")] or [0])
+
+
+def _unrelated(a, b):
+    return a != b and not a.startswith(b + "/") and not b.startswith(a + "/")
+
+
+def _takeover(rng, wt, names, log):
+    """A versioned entry is removed and, in the same revision, its path is taken by something else: an existing
+    directory / file / symlink moved there without any other change, or a newly added entry."""
+    st = _present(wt)
+    if not st:
+        return
+    base = wt.basedir
+    how = rng.choice(["dir", "dir", "dir", "file", "symlink", "any", "newlink", "newlink", "newfile", "newdir"])
+    want = {"dir": ("directory",), "file": ("file",), "symlink": ("symlink",), "any": ("file", "directory", "symlink")}.get(how)
+    pairs = []
+    if want:
+        for e in sorted(st):
+            if st[e][0] not in want:
+                continue
+            if how == "dir" and not any(q.startswith(e + "/") and st[q][0] != "directory" for q in st):
+                continue  # git does not see empty directories
+            for v in sorted(st):
+                if _unrelated(e, v) and v.count("/") + 1 + _height(st, e) <= names.maxdepth + 1:
+                    pairs.append((e, v))
+        if not pairs:
+            how = rng.choice(["newlink", "newfile", "newdir"])
+    if pairs:
+        e, v = rng.choice(pairs)
+        wt.remove([v], keep_files=False, force=True)
+        wt.rename_one(e, v)
+        log.append({"extra": "takeover", "removed": v, "removed_kind": st[v][0], "moved": e, "kind": st[e][0]})
+        return
+    v = rng.choice(sorted(st))
+    wt.remove([v], keep_files=False, force=True)
+    ap = os.path.join(base, v)
+    if how == "newlink":
+        os.symlink(rng.choice(TARGETS), ap)
+        _add(wt, v)
+    elif how == "newfile":
+        gen._write(ap, gen.gen_content(rng))
+        _add(wt, v)
+    else:
+        os.mkdir(ap)
+        _add(wt, v)
+        if v.count("/") + 2 <= names.maxdepth + 1:
+            kid = v + "/" + rng.choice(names.files)
+            gen._write(os.path.join(base, kid), gen.gen_content(rng))
+            _add(wt, kid)
+    log.append({"extra": "takeover", "removed": v, "removed_kind": st[v][0], "new": how})
+
+
+def _swap(rng, wt, names, log):
+    """Two versioned entries trade places (through a temporary name); nothing else changes."""
+    st = _present(wt)
+    pairs = [(a, b) for a in sorted(st) for b in sorted(st) if a < b and _unrelated(a, b)
+             and b.count("/") + 1 + _height(st, a) <= names.maxdepth + 1 and a.count("/") + 1 + _height(st, b) <= names.maxdepth + 1
+             and (st[a][0] != "directory" or st[b][0] != "directory" or rng.random() < 0.5)]
+    if not pairs:
+        return
+    a, b = rng.choice(pairs)
+    tmp = "swap-tmp"
+    if tmp in st or os.path.lexists(os.path.join(wt.basedir, tmp)):
+        return
+    wt.rename_one(a, tmp)
+    wt.rename_one(b, a)
+    wt.rename_one(tmp, b)
+    log.append({"extra": "swap", "a": a, "b": b, "kinds": [st[a][0], st[b][0]]})
+
+
+def _link_text(data):
+    """The text if it could be a symlink target (what a file standing in for a symlink holds), else None."""
+    try:
+        t = data.decode("utf-8")
+    except UnicodeDecodeError:
+        return None
+    if not t or len(t) > 200 or any(ord(c) < 32 for c in t) or t != t.strip():
+        return None
+    return t
+
+
+def _kindflip(rng, wt, names, log):
+    """A symlink becomes a regular file holding the link target as its text, or a file holding such a text becomes
+    the symlink: the entry changes kind while the bytes git stores for it stay the same."""
+    st = _present(wt)
+    base = wt.basedir
+    links = sorted(p for p, v in st.items() if v[0] == "symlink")
+    texts = sorted(p for p, v in st.items() if v[0] == "file" and _link_text(v[1] or b"") is not None)
+    if not links and not texts or rng.random() < 0.15:
+        p = _free_path(rng, wt, names)
+        if p is None:
+            return
+        gen._write(os.path.join(base, p), (rng.choice(TARGETS) + str(rng.randint(0, 9))).encode("utf-8"))
+        _add(wt, p)
+        log.append({"extra": "linktext", "path": p})
+        return
+    p = rng.choice(links + texts)
+    ap = os.path.join(base, p)
+    if st[p][0] == "symlink":
+        os.unlink(ap)
+        gen._write(ap, st[p][1].encode("utf-8"))
+        if rng.random() < 0.15:
+            os.chmod(ap, 0o755)
+        log.append({"extra": "kindflip", "path": p, "to": "file"})
+    else:
+        os.unlink(ap)
+        os.symlink(_link_text(st[p][1]), ap)
+        log.append({"extra": "kindflip", "path": p, "to": "symlink"})
+
+
+def rich_start(rng, wt, names, log):
+    """First revision ingredients the later composite edits need to exist already: a directory holding a file (and a
+    nested directory), a symlink, a file whose whole text is a path (no final newline)."""
+    base = wt.basedir
+
+    def put(p, kind, data=None):
+        ap = os.path.join(base, p)
+        if os.path.lexists(ap):
+            return False
+        if kind == "directory":
+            os.mkdir(ap)
+        elif kind == "symlink":
+            os.symlink(data, ap)
+        else:
+            gen._write(ap, data.encode("utf-8") if isinstance(data, str) else data)
+        _add(wt, p)
+        log.append({"start": kind, "path": p})
+        return True
+
+    if rng.random() < 0.8:
+        d = rng.choice(names.dirs)
+        if put(d, "directory"):
+            put(d + "/" + rng.choice(names.files), "file", gen.gen_content(rng))
+            if rng.random() < 0.5:
+                sub = d + "/" + rng.choice(names.dirs)
+                if put(sub, "directory"):
+                    put(sub + "/" + rng.choice(names.files), rng.choice(["file", "file", "symlink"]), rng.choice(TARGETS))
+            if rng.random() < 0.3:
+                put(d + "/" + rng.choice(names.files), "symlink", rng.choice(TARGETS))
+    if rng.random() < 0.7:
+        put(rng.choice(names.files), "symlink", rng.choice(TARGETS))
+    if rng.random() < 0.6:
+        put(rng.choice(names.files), "file", rng.choice(TARGETS).encode("utf-8"))
 
 
 def commit(hist, name, wt, rng, revprops=True):
@@ -214,7 +395,7 @@ def commit(hist, name, wt, rng, revprops=True):
 
 
 def build(ctx, rng, fmt="2a", nrevs=8, nbranches=3, names=None, weights=None, merges=True, ghosts=False, extras=True,
-          revprops=True):
+          revprops=True, extra_kinds=None, start=None):
     """Random multi-branch history with merges (see module docstring).  Returns gen.Hist."""
     from breezy import errors
     from breezy.branch import Branch
@@ -228,6 +409,8 @@ def build(ctx, rng, fmt="2a", nrevs=8, nbranches=3, names=None, weights=None, me
     p0 = os.path.join(root, "b0")
     wt = gen.make_tree(p0, fmt)
     h.trees["b0"] = p0
+    if start is not None:
+        start(rng, wt, names, h.log)
     gen.random_delta(rng, wt, names, rng.randint(3, 7), weights, h.log)
     commit(h, "b0", wt, rng, revprops)
     guard = 0
@@ -272,7 +455,7 @@ def build(ctx, rng, fmt="2a", nrevs=8, nbranches=3, names=None, weights=None, me
             continue
         gen.random_delta(rng, wt, names, rng.randint(1, 5), weights, h.log)
         if extras:
-            extra_edits(rng, wt, names, h.log)
+            extra_edits(rng, wt, names, h.log, extra_kinds)
         if ghosts and rng.random() < 0.15:
             wt.add_pending_merge(b"ghost-%d" % len(h.order))
         try:
